@@ -19,6 +19,10 @@
 (*            (compile_string creates it for the namespace it is called    *)
 (*            with - also for an include -, a created class or a compiled  *)
 (*            instance creates it on the fly)                              *)
+(*   lcyc   = the repository holds, under the name of the class the        *)
+(*            session tried to declare, a class that is its own ancestor;  *)
+(*            state of the REPOSITORY: survives the end of the compile     *)
+(*            call, whether it succeeded or failed                         *)
 (*                                                                         *)
 (* A compile call pushes a frame; `#pragma include` (p_compilerDirective ->*)
 (* compile_file -> compile_string) pushes another one; a normal return     *)
@@ -44,9 +48,9 @@ EXTENDS MofCompileImplOps
 CONSTANTS MaxProd, MaxDepth, OnlyKinds
 
 VARIABLES ses, phase, stack, pfile, pmof, emb, nsw, cyc, out, errfile,
-          errowner, lost, reg, nsinit
+          errowner, lost, reg, nsinit, lcyc
 vars == <<ses, phase, stack, pfile, pmof, emb, nsw, cyc, out, errfile,
-          errowner, lost, reg, nsinit>>
+          errowner, lost, reg, nsinit, lcyc>>
 
 Parts == SessionParts(MaxProd, OnlyKinds)
 
@@ -66,7 +70,7 @@ Init == /\ \E i \in DOMAIN Parts : ses \in Parts[i]
         /\ pfile = 1 /\ pmof = 1
         /\ emb = FALSE /\ nsw = FALSE /\ lost = FALSE /\ cyc = FALSE
         /\ out = "" /\ errfile = 0 /\ errowner = 0
-        /\ reg = FALSE /\ nsinit = TRUE
+        /\ reg = FALSE /\ nsinit = TRUE /\ lcyc = FALSE
 
 Top == stack[Len(stack)]
 OnStack(f) == \E i \in DOMAIN stack : stack[i].f = f
@@ -84,6 +88,8 @@ Raise(x, p) ==
   /\ stack' = << >>
   /\ emb' = IF EmbRuns(p) /\ ~EmbFinally THEN TRUE ELSE emb
   /\ reg' = (reg \/ (~RegisterAfterCreate /\ ReachesCreate(p)))
+  \* the exception unwinds the compile, not the repository
+  /\ lcyc' = (lcyc \/ LeavesCycle(p))
   /\ UNCHANGED <<ses, phase, pfile, pmof, nsw, cyc, lost, nsinit>>
 
 Return ==
@@ -93,7 +99,7 @@ Return ==
   /\ pmof' = IF RestoreOnReturn THEN Top.savedmof ELSE pmof
   /\ out' = IF Len(stack) = 1 THEN "ok" ELSE out
   /\ UNCHANGED <<ses, phase, emb, nsw, cyc, errfile, errowner, lost, reg,
-                 nsinit>>
+                 nsinit, lcyc>>
 
 IncludeTarget(p) ==
   IF p.v = "inc2" THEN 2 ELSE IF p.v = "mutual" THEN 1 ELSE Top.f
@@ -114,9 +120,10 @@ Step ==
                /\ pfile' = g /\ pmof' = g
                /\ nsinit' = TRUE     \* compile_string(mof, target namespace)
                /\ UNCHANGED <<ses, phase, emb, nsw, cyc, out, errfile,
-                              errowner, lost, reg>>
+                              errowner, lost, reg, lcyc>>
      ELSE \E r \in ImplProd(p, [nsw |-> nsw, emb |-> emb, cyc |-> cyc,
-                                reg |-> reg, nsinit |-> nsinit]) :
+                                reg |-> reg, nsinit |-> nsinit,
+                                lcyc |-> lcyc]) :
             IF r = "ok"
             THEN /\ stack' = Bump
                  /\ nsw' = (nsw \/ (p.k = "namespace" /\ p.d = "none"
@@ -130,6 +137,7 @@ Step ==
                  /\ pmof' = IF EmbList(p) /\ ~EmbRestoreAll THEN EmbText
                             ELSE pmof
                  /\ cyc' = CycAfter(p, cyc)
+                 /\ lcyc' = (lcyc \/ LeavesCycle(p))
                  /\ nsinit' = IF p.k = "namespace" /\ p.d = "none"
                                THEN IF p.v \in {"other", "other_full"}
                                     THEN NsCachesInit
@@ -151,12 +159,12 @@ StartGood ==
   /\ nsw' = FALSE          \* compile_string sets target_namespace from ns
   /\ out' = "" /\ lost' = FALSE /\ cyc' = FALSE
   /\ nsinit' = TRUE
-  /\ UNCHANGED <<ses, emb, errfile, errowner, reg>>
+  /\ UNCHANGED <<ses, emb, errfile, errowner, reg, lcyc>>
 
 Finish == /\ phase = "good" /\ out # ""
           /\ phase' = "end"
           /\ UNCHANGED <<ses, stack, pfile, pmof, emb, nsw, cyc, out, errfile,
-                         errowner, lost, reg, nsinit>>
+                         errowner, lost, reg, nsinit, lcyc>>
 
 Next == (Running /\ (Return \/ Step)) \/ StartGood \/ Finish
 Spec == Init /\ [][Next]_vars /\ WF_vars(Next)
@@ -168,9 +176,16 @@ TypeOK == /\ out \in {""} \cup AnyMof \cup
                       "OverflowError", "UnicodeEncodeError"}
           /\ Len(stack) <= MaxDepth
 
-ImplRefinesReq == (phase = "bad" /\ out # "") => out \in Admissible(ses)
+\* Total holds for every compile call: the session, and the later call on the
+\* same object (which names no file that cannot be opened)
+ImplRefinesReq ==
+  /\ (phase = "bad" /\ out # "") => out \in Admissible(ses)
+  /\ (phase \in {"good", "end"} /\ out # "") => out \in AnyMof
 PositionFileOK == (out \in MOFErrors) => errfile = errowner
-Reusable == (phase \in {"good", "end"} /\ out # "") => (out = "ok" /\ ~lost)
+\* valid MOF afterwards compiles and loses nothing (part H: the later text
+\* is not valid MOF, nothing is promised beyond Total)
+Reusable == (phase \in {"good", "end"} /\ out # "" /\ ~LaterUndeclared(ses))
+            => (out = "ok" /\ ~lost)
 Termination == <>(phase = "end")
 
 =============================================================================
